@@ -276,6 +276,8 @@ func genC13(seed uint64, tier string, outdir string) *Report {
 		{genesisOf(2, 2, VRec{1, 1, 1}, VRec{2, 2, 1}, VRec{3, 3, 1}), false, "more validators than MaxValidators (D6)"},
 		{genesisOf(1, 2, VRec{1, 1, 1}, VRec{2, 2, 1}), false, "more validators than MaxValidators (D6)"},
 		{genesisOf(0, 2), false, "MaxValidators = 0"},
+		{genesisOf(3, 2, VRec{1, 1, 1}, VRec{1, 2, 1}), false, "operator address twice (repaired by 14a7cf8)"},
+		{genesisOf(3, 2, VRec{2, 3, 1}, VRec{1, 1, 1}, VRec{2, 2, 1}), false, "operator address twice (repaired by 14a7cf8)"},
 		{genesisOf(3, 2, VRec{1, 1, 1}, VRec{2, 2, 1}, VRec{3, 3, 1}), true, "exactly MaxValidators"},
 		{genesisOf(3, 2, VRec{1, 1, 0}, VRec{2, 2, 1}), true, "a zero-power genesis validator is purged"},
 		{genesisOf(3, 2, VRec{1, 1, -3}, VRec{2, 2, 4}), true, "a negative-power genesis validator is purged"},
@@ -292,6 +294,7 @@ func genC13(seed uint64, tier string, outdir string) *Report {
 			rep.Violate(Violation{Case: st.caseID, What: "ValidateGenesis accepted a genesis it must reject (" + gc.why + ")", Sig: "C13:invalid-genesis-accepted", Ops: []string{gc.g.String()}})
 		}
 		if !r.Dead() {
+			// also for a wrongly accepted genesis: the monitors then show what goes wrong afterwards
 			runSymbols(r, 0, []valSym{vAdd(3, 3), vBoundary(), vRm(2), vBoundary()})
 		}
 		st.finish(r, true, "")
@@ -315,9 +318,12 @@ func genC13(seed uint64, tier string, outdir string) *Report {
 				g.Vals = append(g.Vals, VRec{uint64(ops[i] + 1), uint64(keys[i] + 1), 1})
 			}
 			why = "more validators than MaxValidators"
-		} else {
+		} else if rg.Bool() {
 			g.Vals[1].Key = g.Vals[0].Key
 			why = "consensus key twice"
+		} else {
+			g.Vals[1].Op = g.Vals[0].Op
+			why = "operator address twice"
 		}
 		r := st.ve.Start(st.caseID, g, 5, 5)
 		rep.Hist("genesis-check:" + r.Snaps[0].Verdict)
@@ -363,19 +369,6 @@ func genC13(seed uint64, tier string, outdir string) *Report {
 		stale := len(last.Hist) > 1
 		what := fmt.Sprintf("HistoricalEntries = 2 until block 3, 0 in blocks 4-5, 1 from block 6 on: after BeginBlocker 7 the stored record heights are %v (want [7])", histHeights(last))
 		rep.KnownChecked = append(rep.KnownChecked, KnownResult{ID: "C13:history-retention-zero", StillFails: stale, What: what})
-		st.finish(r, true, "")
-	}
-	// (f) known finding: a genesis naming one operator address twice passes ValidateGenesis
-	{
-		st.caseID++
-		r := st.ve.Start(st.caseID, genesisOf(3, 2, VRec{1, 1, 1}, VRec{1, 2, 1}), 3, 3)
-		fails := false
-		if !r.Dead() {
-			runSymbols(r, 0, []valSym{vAdd(3, 1), vBoundary(), vRm(1), vBoundary()})
-			fails = len(r.Snaps[0].Idx) != len(r.Snaps[0].Vals)
-		}
-		rep.KnownChecked = append(rep.KnownChecked, KnownResult{ID: "C13:genesis-duplicate-operator", StillFails: fails,
-			What: fmt.Sprintf("genesis validators (op1,key1),(op1,key2): ValidateGenesis verdict %s; after InitGenesis validators %v, consensus-key index %v", r.Snaps[0].Verdict, r.Snaps[0].Vals, r.Snaps[0].Idx)})
 		st.finish(r, true, "")
 	}
 	writeShards(outdir, "C13", valCaseHeader, "run_valcase", "valcase", st.texts, 16, rep)
